@@ -352,8 +352,75 @@ def r6_existence_test_in_current_subdir(repo=None):
     return c04.r8_remembered_subdir_is_current(repo, rid="C11.R6")
 
 
+def r7_usable_after_a_refusal(repo=None):
+    """'a write that would need to [alter a finalized file] is rejected and the writer remains usable for later time periods'.
+    The writer decides between 'continue in the open file' and 'enter a new file' by comparing the remembered (sub_directory,
+    basename) with the names derived for the sample.  If the create function can store those names and then return an error with no
+    file open (the refusal of an existing finalized file does exactly that), the next write into the same period finds the names
+    equal: unless the decision also requires an open handle, it 'continues' in a file that is not open, the data write fails on
+    handle 0 and latches has_failure - the writer is dead for every later period.  Positive evidence = both halves: (a) a path in the
+    create function from the store of the remembered name to a non-zero return that does not pass the store of the file handle, and
+    (b) a `file_exists = 1` whose path condition is satisfiable with the handle zero (truth table over canonical atoms)."""
+    import itertools
+    from .. import cbool
+    r = Rule("C11.R7", "after a refused write the writer does not take the refused file for the open one")
+    tu = cfront.lib(repo)
+    cf = tu.fn("digital_rf_create_hdf5_file")
+    g = _cfg.build_c(cf)
+    name_stores = []
+    handle_stores = []
+    for n in g.nodes:
+        if n.ast is None or n.kind not in ("stmt", "cond"):
+            continue
+        for path, node, rhs, kind in clib.stores(n.ast):
+            if path == OBJ + "->basename" and kind.startswith("call:"):
+                name_stores.append(n)
+            if path == OBJ + "->hdf5_file" and kind == "=" and rhs is not None and rhs.intval() != 0:
+                handle_stores.append(n)
+    if not name_stores or not handle_stores:
+        raise AnalysisError("digital_rf_create_hdf5_file: store of the remembered name (%d) / of the file handle (%d) not found" % (
+            len(name_stores), len(handle_stores)))
+    err_rets = [n for n in g.nodes if n.kind == "return" and n.ast is not None and n.ast.children and n.ast.children[0].intval() not in (None, 0)]
+    reach = g.reach([b for s_ in name_stores for b, _l in g.succ[s_.id]], avoid=[h.id for h in handle_stores])
+    refused = [n for n in err_rets if n.id in reach]
+    wf = tu.fn("digital_rf_write_samples_to_file")
+    ones = [n for n in wf.walk() if n.kind == "BinaryOperator" and n.opcode == "=" and n.children[0].path() == "file_exists"
+            and n.children[1].intval() == 1]
+    if not ones:
+        raise AnalysisError("digital_rf_write_samples_to_file: assignment file_exists = 1 not found")
+    H = OBJ + "->hdf5_file"
+    for o in ones:
+        f = cbool.path_condition(o, wf)
+        names = sorted(cbool.atoms(f))
+        hatoms = [a for a in names if a == H]
+        free = [a for a in names if a not in hatoms]
+        sat = None
+        for bits in itertools.product((False, True), repeat=len(free)):
+            val = dict(zip(free, bits))
+            for a in hatoms:
+                val[a] = False
+            if cbool.ev(f, val):
+                sat = val
+                break
+        site = "%s:%s digital_rf_write_samples_to_file `file_exists = 1`" % (LIB, o.line)
+        if sat is None:
+            r.ok(site, "only with the file handle non-zero (%s)" % cbool.show(f)[:140])
+        elif not refused:
+            r.ok(site, "decided by the remembered names; digital_rf_create_hdf5_file never returns an error after storing the name without "
+                       "an open file")
+        else:
+            r.violation(LIB, "digital_rf_write_samples_to_file", "file_exists = 1 under %s" % cbool.show(f)[:160],
+                        "the open file is recognised by the remembered names alone, and digital_rf_create_hdf5_file stores them before it "
+                        "can refuse (error return at line %s reached from the name store without opening a file): after a write into an "
+                        "already finalized period was refused, the next write into the same period continues in a file that is not open, "
+                        "H5Dwrite fails on handle 0 and latches has_failure, so every later write - also into periods never recorded - "
+                        "is refused" % refused[0].line, line=o.line)
+    r.guard(1)
+    return r
+
+
 def rules(repo=None):
-    return [lambda: r1_compare_all(repo), lambda: r2_refused_session_no_effect(repo), lambda: r3_never_replace(repo),
+    return [lambda: r7_usable_after_a_refusal(repo), lambda: r1_compare_all(repo), lambda: r2_refused_session_no_effect(repo), lambda: r3_never_replace(repo),
             lambda: r4_reader_all_directories(repo), lambda: r5_bounds_merge(repo), lambda: r6_existence_test_in_current_subdir(repo)]
 
 
